@@ -601,3 +601,51 @@ obligation('C07', 'C07-6b receiver: FilteredSequencerBlock::try_from_raw accepts
 obligation('C07', 'C07-6c receiver: SubmittedMetadata::try_from_raw (Celestia) accepts only after both proofs verified under the data hash (= C17-3c)')(_c17.must_verify('SubmittedMetadata'))
 from obligations import c09 as _c09
 obligation('C07', 'C07-7 receiver (conductor): rollup data is attached only to the header with its block hash and only under a passing Merkle audit against that header\'s rollup-data root (= C09-4)')(_c09.c09_4)
+
+
+# ----------------------------------------------------------------------------------------------------------------- C07-8
+@obligation('C07', 'C07-8 CheckedTransaction::rollup_data_bytes yields exactly the (rollup id, data) of the transaction\'s RollupDataSubmission actions, in action order (the contract C07-1 / C07-5 / C06 rely on)')
+def c07_8(run):
+    ex, W = A.engine()
+    f = ex.find(r'checked_transaction::<impl at [^>]*>::rollup_data_bytes$')
+    shapes = ['', 'R', 'T', 'RR', 'TR', 'RT', 'RTR', 'TTR']
+    run.bound(transactions=f'{len(shapes)} action lists of 0..3 actions mixing RollupDataSubmission with another action kind; rollup ids and data symbolic')
+    n = 0
+    for shape in shapes:
+        acts = []; want = []
+        for i, c in enumerate(shape):
+            if c == 'R':
+                rid = z3.BitVec(f'rollup_id_{i}', 256); data = Obj('bytes::Bytes', kind='opaque'); data.attrs['ident'] = f'data_{i}'
+                sub = B.struct(ex, 'astria_core::protocol::transaction::v1::action::RollupDataSubmission', rollup_id=rid, data=data)
+                acts.append(B.variant(ex, 'CheckedAction', 'RollupDataSubmission', **{'0': B.struct(ex, 'CheckedRollupDataSubmission', action=sub)}))
+                want.append((rid, f'data_{i}'))
+            else:
+                acts.append(B.variant(ex, 'CheckedAction', 'Transfer', **{'0': Obj('CheckedTransfer')}))
+        tx = B.struct(ex, 'CheckedTransaction', actions=M.new_vec('Vec<CheckedAction>', acts))
+        for i, p in enumerate(run.explore(ex, ex.start(f, [B.cell(tx)]))):
+            lab = f'[actions {shape or "-"}, path {i}]'
+            if p.kind != 'return':
+                run.prove(f'no panic {lab}', p.pc, z3.BoolVal(False), detail=p.info); continue
+            it = ex.deref_val(p, p.result)
+            if not isinstance(it, Obj) or it.kind != 'mapiter' or not it.attrs.get('filter'):
+                raise Inconclusive(f'rollup_data_bytes no longer returns a filter_map iterator ({it!r}); the harness must be adapted')
+            elems = M.drain_iter(ex, p, it.attrs['inner'])
+            clo = ex.deref_val(p, it.attrs['f']); body = ex.closure_body(clo)
+            got = []
+            for e in elems:
+                ps = run.explore(ex, ex.start(body, [B.cell(clo), e]))
+                if len(ps) != 1 or ps[0].kind != 'return':
+                    raise Inconclusive(f'closure of rollup_data_bytes did not return on a single path: {[(q.kind, q.info) for q in ps]}')
+                r = ps[0].result
+                if r.discr == 'Some':
+                    a, b = r.fields[('Some', 0)]
+                    got.append((ex.deref_val(ps[0], a), ex.deref_val(ps[0], b).attrs.get('ident')))
+                elif r.discr != 'None':
+                    raise Inconclusive('closure result with symbolic variant')
+            n += 1
+            run.sample({'shape': shape, 'yielded': len(got)})
+            run.prove(f'yields exactly the submissions of the transaction, in action order {lab}', p.pc,
+                      z3.And(z3.BoolVal(len(got) == len(want) and [g[1] for g in got] == [w[1] for w in want]), *[g[0] == w[0] for g, w in zip(got, want)]))
+    if not n:
+        raise Inconclusive('vacuity')
+    run.require_reached(*run.cur.reach)
